@@ -363,7 +363,7 @@ func (r *Runtime) promiseProto_finally(call FunctionCall) Value {
 	} else {
 		thenFinally = r.newNativeFunc(func(call FunctionCall) Value {
 			value := call.Argument(0)
-			result := onFinallyFn(FunctionCall{})
+			result := onFinallyFn(FunctionCall{This: _undefined})
 			promise := r.promiseResolve(c, result)
 			valueThunk := r.newNativeFunc(func(call FunctionCall) Value {
 				return value
@@ -373,7 +373,7 @@ func (r *Runtime) promiseProto_finally(call FunctionCall) Value {
 
 		catchFinally = r.newNativeFunc(func(call FunctionCall) Value {
 			reason := call.Argument(0)
-			result := onFinallyFn(FunctionCall{})
+			result := onFinallyFn(FunctionCall{This: _undefined})
 			promise := r.promiseResolve(c, result)
 			thrower := r.newNativeFunc(func(call FunctionCall) Value {
 				panic(reason)
